@@ -3,10 +3,13 @@
 // fresh symbolic point), so every behaviour of the inner minimisation is covered. Whenever the solver reports `converged`:
 //   every |h_j(x)| and max(0, g_i(x)) recomputed from the problem at the returned point is <= epsilon, and the constraint
 //   values / feasibility KKT residuals stored in the returned state equal the recomputed ones.
-// config: d=<1|2>;cons=<b|l|lb|q>;outers=<explored outer iterations>;eps=<sym|big>
+// solver=lp / qp: the same outer-loop treatment for the linear / quadratic penalty solvers (honest result: reported value = objective
+// at the returned point, stored constraint values = recomputed; no feasibility promise)
+// config: d=<1|2>;cons=<b|l|lb|q>;outers=<explored outer iterations>;eps=<sym|big>;solver=<al|lp|qp>
 #include "hcommon.h"
 #include <nano/solver.h>
 #include <nano/solver/augmented.h>
+#include <nano/solver/penalty.h>
 using namespace nano;
 using namespace h;
 
@@ -86,7 +89,12 @@ extern "C" void sym_body()
     }
     SYM_CHECK(ok, "constrain() accepts the constraints (harness precondition)");
 
-    solver_augmented_lagrangian_t solver;
+    const bool is_al = cfg("solver", "al") == "al";
+    rsolver_t  psolver;
+    if (is_al) psolver = std::make_unique<solver_augmented_lagrangian_t>();
+    else if (cfg("solver", "al") == "lp") psolver = std::make_unique<solver_linear_penalty_t>();
+    else psolver = std::make_unique<solver_quadratic_penalty_t>();
+    auto&        solver = *psolver;
     const double eps = cfg("eps", "sym") == "sym" ? sym_box("eps", 1e-8, 1e-1) : 0.1;
     solver.parameter("solver::epsilon")   = eps;
     solver.parameter("solver::max_evals") = 100;
@@ -103,14 +111,14 @@ extern "C" void sym_body()
         {
             SYM_EQ_(state.ceq()(ie++), v, "stored equality value = recomputed h_j(x) at the returned point");
             t2 = ab(v) > t2 ? ab(v) : t2;
-            if (state.status() == solver_status::converged) SYM_LE_(ab(v), eps, "converged => |h_j(x)| <= epsilon at the returned point");
+            if (is_al && state.status() == solver_status::converged) SYM_LE_(ab(v), eps, "converged => |h_j(x)| <= epsilon at the returned point");
         }
         else
         {
             SYM_EQ_(state.cineq()(ii++), v, "stored inequality value = recomputed g_i(x) at the returned point");
             const double p = v > 0.0 ? v : 0.0;
             t1             = p > t1 ? p : t1;
-            if (state.status() == solver_status::converged) SYM_LE_(p, eps, "converged => max(0, g_i(x)) <= epsilon at the returned point");
+            if (is_al && state.status() == solver_status::converged) SYM_LE_(p, eps, "converged => max(0, g_i(x)) <= epsilon at the returned point");
         }
     }
     SYM_EQ_(state.kkt_optimality_test1(), t1, "KKT feasibility residual 1 = max_i max(0, g_i(x)) recomputed");
